@@ -24,17 +24,19 @@ Has(r, f) == f \in DOMAIN r
 \* ---------------------------------------------------------------- C01
 Eps(c, uops) == IF c.passes = 0 THEN 0 ELSE EpsOpt(c.passes, uops)
 AltsRepresentable(l) == \A a \in DOMAIN l.alts : \A x \in DOMAIN l.alts[a] : Representable(l.alts[a][x])
+\* micro-op list without the multiplier annotation (the code reports cycles and ports only)
+Bare(alt) == [ x \in DOMAIN alt |-> [c |-> alt[x].c, p |-> alt[x].p] ]
 \* clause of one line: some alternative must explain the row
 LineClause(c, l) ==
   IF ~AltsRepresentable(l) THEN "unrepresentable"
-  ELSE IF Has(l, "obs") /\ \E o \in DOMAIN l.obs : ~\E a \in DOMAIN l.alts : l.obs[o] = l.alts[a]
+  ELSE IF Has(l, "obs") /\ \E o \in DOMAIN l.obs : ~\E a \in DOMAIN l.alts : Bare(l.obs[o]) = Bare(l.alts[a])
        THEN "reported-uops-not-in-model"
   ELSE IF \E a \in DOMAIN l.alts : FeasClause(l.row, l.alts[a], Eps(c, l.alts[a]), c.np) = "ok"
        THEN (IF c.passes = 0 /\ ~\E a \in DOMAIN l.alts : l.row = UniformRow(l.alts[a], c.np)
              THEN "not-uniform-split" ELSE "ok")
   ELSE \* name the clause for the alternative the code says it selected, else for the first one
-       LET sel == IF Has(l, "obs") /\ Len(l.obs) = 1 /\ \E a \in DOMAIN l.alts : l.alts[a] = l.obs[1]
-                  THEN MinSet({ a \in DOMAIN l.alts : l.alts[a] = l.obs[1] }) ELSE 1
+       LET sel == IF Has(l, "obs") /\ Len(l.obs) = 1 /\ \E a \in DOMAIN l.alts : Bare(l.alts[a]) = Bare(l.obs[1])
+                  THEN MinSet({ a \in DOMAIN l.alts : Bare(l.alts[a]) = Bare(l.obs[1]) }) ELSE 1
        IN FeasClause(l.row, l.alts[sel], Eps(c, l.alts[sel]), c.np)
 C01Clause(c) ==
   LET bad == { i \in DOMAIN c.lines : LineClause(c, c.lines[i]) # "ok" } IN
